@@ -964,6 +964,8 @@ def rule_partition(ctx):
                 pairs = {"find_variable": [("{{", "}}")], "find_foreign_key": [("$t(", ")"), ("$t(", "first char")], "find_component": [("<", ">")]}
                 if first[2] not in ("delim", "char") or last[2] not in ("delim", "char"):
                     probs.append("the gap does not start and end with a delimiter (starts with %s `%s`, ends with %s `%s`): delimiter text would leak into a piece" % (first[2], first[3], last[2], last[3]))
+                elif name == "find_variable" and len(path) == 1 and first[2] == "delim" and first[3] == "{{" and getattr(this, "what", "") == "ParsedValue::Literal" and not srcs:
+                    pass          # `{{` that opens no variable, kept as a piece of text of its own (what text, C01.R0 reads on strings with such braces)
                 elif (first[3], last[3]) not in pairs[name]:
                     probs.append("the gap is delimited by `%s` .. `%s`, the documented delimiters are %s" % (first[3], last[3], pairs[name]))
             if probs:
